@@ -211,3 +211,21 @@ package compile
 //@   loop 0 invariant baseLen.Lbs == old(baseLen.Lbs) && forall(i, 0, len(baseLen.Lbs), baseLen.Lbs[i] == old(baseLen.Lbs[i]))
 //@   loop 0 invariant forall(k, 0, len(lbs), forallint(v, implies(lbs[k].Start <= v && v <= lbs[k].End, inBase(baseLen, v, len(baseLen.Lbs)))))
 //@   loop 1 invariant implies(loopidx >= 0, lb.Start >= rangeMin && rangeMax == baseLen.Lbs[loopidx].End && forallint(v, implies(rangeMin <= v && v <= rangeMax, inBase(baseLen, v, loopidx+1))))
+
+// ---------------------------------------------------------------------------
+// Range restrictions (C13): every range of a derived type is a subset of the base's range set - every value between
+// its bounds lies in some base range, where adjacent whole-number base ranges may be spanned - or compilation ends
+// through comp.error. Values are quantified as boxed whole numbers, or as float64 for decimal64 ranges.
+//@ define ibox(x) = smt("Iface", "(mk_iface 0 (bx$Int %s))", x)
+//@ define fbox(x) = smt("Iface", "(mk_iface 0 (bx$F64 %s))", x)
+//@ define inB(b, v, hi) = exists(i, 0, hi, !rb_lt(b, v, rb_start(b, i)) && !rb_gt(b, v, rb_end(b, i)))
+//@ define covI(b, lo, hi, n) = forallint(x, implies(!rb_lt(b, ibox(x), lo) && !rb_gt(b, ibox(x), hi), inB(b, ibox(x), n)))
+//@ define covF(b, lo, hi, n) = forallsmt(x, "F64", implies(!rb_lt(b, fbox(x), lo) && !rb_gt(b, fbox(x), hi), inB(b, fbox(x), n)))
+//@ define cov(b, lo, hi, n) = ite(is(b, schema.DrbSlice), covF(b, lo, hi, n), covI(b, lo, hi, n))
+//@ define kindOf(r, b) = smt("Bool", "(= (i_tag %s) (i_tag %s))", r, b)
+//@ func (*Compiler).createRangeBdry
+//@   requires comp != nil && node != nil && base_rb != nil && rb_len(base_rb) >= 1
+//@   ensures result != nil && rb_len(result) == len(parsed_rbs) && forall(k, 0, rb_len(result), cov(base_rb, rb_start(result, k), rb_end(result, k), rb_len(base_rb)))
+//@   loop 0 invariant rangeBdrySlice != nil && kindOf(rangeBdrySlice, base_rb) && rb_len(rangeBdrySlice) == loopidx + 1
+//@   loop 0 invariant forall(k, 0, rb_len(rangeBdrySlice), cov(base_rb, rb_start(rangeBdrySlice, k), rb_end(rangeBdrySlice, k), rb_len(base_rb)))
+//@   loop 1 invariant 0 <= index && index <= rb_len(base_rb) && implies(index >= 1, !rb_lt(base_rb, start, rangeMin) && rangeMax == rb_end(base_rb, index-1) && cov(base_rb, rangeMin, rangeMax, index))
